@@ -30,6 +30,15 @@ pub fn check_structure(spec: &CfmSpec) -> Check {
         let mc = no_panic("decode_clutter_filter_map", || decode_clutter_filter_map(&mut r))?
             .map_err(|e| Fail::new("cfm:decode-error-short-reads", format!("reader delivering {} bytes per read: {:?}", step, e)))?;
         ensure!(mc == m, "cfm:depends-on-read-chunking", "map decoded from a reader delivering {} bytes per read differs from the slice decode", step);
+        // ... and from a reader positioned inside a larger source
+        let lead = 28;
+        let mut shifted = vec![0u8; lead];
+        shifted.extend_from_slice(&body);
+        let mut cur = std::io::Cursor::new(&shifted[..]);
+        cur.set_position(lead as u64);
+        let mp = no_panic("decode_clutter_filter_map", || decode_clutter_filter_map(&mut cur))?
+            .map_err(|e| Fail::new("cfm:decode-error-at-offset", format!("reader positioned {} bytes into its source: {:?}", lead, e)))?;
+        ensure!(mp == m, "cfm:depends-on-reader-position", "map decoded from a reader positioned {} bytes into its source differs from the slice decode", lead);
     }
     ensure_eq!(m.header.map_generation_date, spec.date, "cfm-layout:date@0");
     ensure_eq!(m.header.map_generation_time, spec.minutes, "cfm-layout:minutes@2");
